@@ -861,6 +861,9 @@ namespace Dune
     oldMap_.clear();
     globalMap_.clear();
     addedIndices_.clear();
+    // the message sizes are accumulated in calculateMessageSizes(): forget them, or a second call of sync()
+    // on this object announces twice as many indices as it packs
+    infoSend_.clear();
 
     // update the sequence number
     remoteIndices_.sourceSeqNo_ = remoteIndices_.destSeqNo_ = indexSet_.seqNo();
